@@ -494,7 +494,8 @@ void apply(Tree &t, CaseCtx &cx, int op, uint8_t a, uint8_t b, int K, size_t max
         snprintf(cl, sizeof cl, "C15.%s.once", kind);
         CHECK(!cc.bad, cl, "%s clear callback received an element twice, a foreign object, or a wrong priv", t.tag);
         CHECK(cc.calls == n, cl, "%s clear made %zu callbacks for %zu elements", t.tag, cc.calls, n);
-        snprintf(cl, sizeof cl, "C15.%s.empty", kind);
+        // (under C15 the clause is C15's; for the tree properties "size equals that count" covers the cleared tree too)
+        if (g_prop == "C15") snprintf(cl, sizeof cl, "C15.%s.empty", kind); else snprintf(cl, sizeof cl, "C01.size");
         size_t sz = t.size();
         CHECK(sz == 0, cl, "%s size %zu after clear", t.tag, sz);
         if (n >= 3 && two_children) cx.clear3 = true;
